@@ -134,6 +134,8 @@ class ParserBase(collections_abc.Mapping):
         else:
             parsable_length, _ = self._parse_numeric_array(name, 1, item_size, int)
             parsable_length = parsable_length[0]
+            if parsable_length > self.unparsed_length - item_size:
+                raise NotEnoughData(parsable_length - (self.unparsed_length - item_size))
             parsed_object = parsable_class.parse_exact_size(
                 self._parsable[self._parsed_length + item_size:self._parsed_length + parsable_length + item_size]
             )
